@@ -101,3 +101,22 @@ Definition C13_stop_cursor_holds : Prop :=
     let start := match rest with r1 :: _ => bnum r1 | [] => bnum L + 1 end in
     exists c', cons_fold_aside (mkCons (rev (hc ++ hf)) 0 false) (map as_new (filter is_nu (fst res))) = Some c' /\
                (snd res = JStop -> stop_reached c canon merged start (fst res) (cs_stack c')).
+
+(* The scope hypothesis of C13_stop_target is needed: with the target cursor block beyond the bundle of the stop block -
+   here stop block 9, bundle 10, target cursor {New, block 14, LIB 6}, start 5 - every other hypothesis of C13_stop_target holds
+   and the stream ends with stop-block-reached having delivered blocks 5 and 6 only (the blocks above the cursor LIB are held
+   back until the cursor block is seen, and the files are read up to the bundle of S only): canon has block 9 and the consumer
+   does not hold it.  The real code does the same (replayed). *)
+Definition C13_stop_target_scope_needed : Prop :=
+  exists (U : list block) (c : jcfg) (w : world) (ps : list (N * N)) (merged_end : N) (canon forked : list block)
+         (cu : cursor) (B : block),
+    let merged := filter (fun b => bnum b <? merged_end) canon in
+    wf_b U = true /\ lib_ok_b LNone U = true /\ hub_of_universe U c w /\
+    chain_ok canon /\ incl canon U /\ eventual_tip c w canon /\
+    j_mode c = 2 /\ j_cursor c = Some cu /\ j_filter c = 0 /\ 0 < j_bundle c /\
+    Forall (fun b => bnum b < file_bound) merged /\
+    In B canon /\ bref B = cu_blk cu /\ cursor_lib_on canon cu B /\
+    (exists b, In b canon /\ bnum b = run_start c w) /\
+    (exists bS, In bS canon /\ bnum bS = j_stop c) /\
+    let res := stream_run c w ps merged_end merged forked in
+    snd res = JStop /\ map (fun e => bnum (eblk e)) (fst res) = [run_start c w; run_start c w + 1] /\ run_start c w + 1 < j_stop c.
